@@ -665,6 +665,144 @@ def translate_new(resp, headers):
         return None, str(e)
 
 
+# ------------------------------------------------------------------------------------------------------------
+# Translator for the two small state transitions of `ClientConnection` (server.rs):
+#   write():             match self.connection.try_write() { arms } — each arm a block of `self.state = V;` and
+#                        `if <pred> { … } [else { … }]` — becomes  CState → WriteOut → Bool → CState
+#                        (state before, outcome of try_write, pending_write() afterwards ↦ state after)
+#   enqueue_response():  `if <pred> { self.connection.enqueue_response(response); }` and the
+#                        `checked_sub(N).ok_or(ServerError::Underflow)?` bookkeeping, in whichever order they stand,
+#                        becomes  CState → Nat → Bool × Option Nat  (state, in-flight ↦ enqueued?, new count / Underflow)
+
+CSTATE = {"ClientConnectionState::Closed": "CState.closed", "ClientConnectionState::AwaitingIncoming": "CState.awaitingIn",
+          "ClientConnectionState::AwaitingOutgoing": "CState.awaitingOut"}
+
+
+def match_arms(body):
+    """[(pattern text, block text)] of the first `match … { … }` in body"""
+    m = re.search(r"\bmatch\s+[^{]+\{", body)
+    if not m:
+        return None, None
+    scrut = body[m.start():m.end() - 1]
+    blk = block_after(body, m.end() - 1)
+    if blk is None:
+        return None, None
+    inner, arms, i = blk[1:-1], [], 0
+    while True:
+        j = inner.find("=>", i)
+        if j < 0:
+            break
+        pat = inner[i:j].strip().lstrip(",").strip()
+        k = j + 2
+        while k < len(inner) and inner[k] in " \t\r\n":
+            k += 1
+        if k >= len(inner) or inner[k] != "{":
+            return None, None
+        b = block_after(inner, k)
+        if b is None:
+            return None, None
+        arms.append((pat, b))
+        i = k + len(b)
+    return scrut, arms
+
+
+def tr_state_block(stmts, atoms):
+    """Lean term for the value of `st` after the statements"""
+    if not stmts:
+        return "st"
+    st, rest = stmts[0].strip(), stmts[1:]
+    m = re.fullmatch(r"self\.state\s*=\s*([\w:]+)\s*;", st)
+    if m and m.group(1) in CSTATE:
+        return f"(let st := {CSTATE[m.group(1)]}; {tr_state_block(rest, atoms)})"
+    m = re.fullmatch(r"if\s+(.*?)\s*(\{.*\})", st, flags=re.S)
+    if m:
+        cond = m.group(1)
+        thn = block_after(m.group(2), 0)
+        tail = m.group(2)[len(thn):].strip()
+        els = None
+        if tail:
+            me = re.fullmatch(r"else\s*(\{.*\})", tail, flags=re.S)
+            if not me:
+                raise Unparsed("else " + tail)
+            els = me.group(1)
+        a = tr_state_block(split_stmts(thn[1:-1]), atoms)
+        b = tr_state_block(split_stmts(els[1:-1]), atoms) if els else "st"
+        return f"(let st := (if {tr_pred(cond, atoms)} then {a} else {b}); {tr_state_block(rest, atoms)})"
+    raise Unparsed("state statement " + st)
+
+
+def translate_client_write(srv):
+    try:
+        body = fn_body(srv, "ClientConnection", "write")
+        if body is None:
+            raise Unparsed("ClientConnection::write")
+        scrut, arms = match_arms(body)
+        if not arms or "self.connection.try_write()" not in scrut:
+            raise Unparsed("match on try_write")
+        # nothing but the match and the final Ok(())
+        rest = body[body.index(scrut) + len(scrut):]
+        rest = rest[len(block_after(rest, 0)):].strip()
+        if not re.fullmatch(r"Ok\(\(\)\)\s*\}", rest):
+            raise Unparsed("statements after the match: " + rest[:40])
+        atoms = dict(CSTATE)
+        atoms.update({"self.state": "st", "self.connection.pending_write()": "pw"})
+
+        def arm_for(result):
+            for idx, (pat, _) in enumerate(arms):
+                for alt in [a.strip() for a in pat.split("|")]:
+                    if alt == "_":
+                        return idx
+                    if result == "Ok" and re.fullmatch(r"Ok\(\s*(\(\)|_)\s*\)", alt):
+                        return idx
+                    mm = re.fullmatch(r"Err\(\s*ConnectionError::(\w+)\s*(\(\s*_\s*\))?\s*\)", alt)
+                    if mm and mm.group(1) == result:
+                        return idx
+                    if not (mm or re.fullmatch(r"Ok\(\s*(\(\)|_)\s*\)", alt)):
+                        raise Unparsed("pattern " + alt)
+            raise Unparsed("no arm for " + result)
+        a1, a2 = arm_for("ConnectionClosed"), arm_for("StreamWriteError")
+        if a1 != a2:
+            raise Unparsed("ConnectionClosed and StreamWriteError handled differently")
+        terms = {}
+        for out, idx in (("closed", a1), ("invalidWrite", arm_for("InvalidWrite")), ("ok", arm_for("Ok"))):
+            terms[out] = tr_state_block(split_stmts(arms[idx][1][1:-1]), atoms)
+        return ("fun st out pw => match out with | .closed => " + terms["closed"] + " | .invalidWrite => " + terms["invalidWrite"]
+                + " | .ok => " + terms["ok"]), None
+    except Unparsed as e:
+        return None, str(e)
+
+
+def translate_client_enqueue(srv):
+    try:
+        body = fn_body(srv, "ClientConnection", "enqueue_response")
+        if body is None:
+            raise Unparsed("ClientConnection::enqueue_response")
+        stmts = [x.strip() for x in split_stmts(body.strip()[1:-1])]
+        if len(stmts) != 3 or not re.fullmatch(r"Ok\(\(\)\)", stmts[2]):
+            raise Unparsed("shape")
+        atoms = dict(CSTATE)
+        atoms["self.state"] = "st"
+        enq = sub = None
+        for idx, st in enumerate(stmts[:2]):
+            m = re.fullmatch(r"if\s+(.*?)\s*\{\s*self\.connection\.enqueue_response\(\s*response\s*\)\s*;\s*\}", st, flags=re.S)
+            if m:
+                enq = (idx, tr_pred(m.group(1), atoms))
+                continue
+            m = re.fullmatch(r"self\.in_flight_response_count\s*=\s*self\s*\.in_flight_response_count\s*\.checked_sub\(\s*(\d+)\s*\)\s*"
+                             r"\.ok_or\(\s*ServerError::Underflow\s*\)\?\s*;", st, flags=re.S)
+            if m:
+                sub = (idx, int(m.group(1)))
+                continue
+            raise Unparsed("statement " + st[:50])
+        if enq is None or sub is None:
+            raise Unparsed("missing part")
+        n = sub[1]
+        cond = enq[1] if enq[0] < sub[0] else f"({enq[1]} && !(decide (n < {n})))"
+        return f"fun st n => ({cond}, if n < {n} then none else some (n - {n}))", None
+    except Unparsed as e:
+        return None, str(e)
+
+
 def main():
     conn, srv, common, headers, resp, req = (read(x) for x in
                                              ("connection.rs", "server.rs", "common/mod.rs", "common/headers.rs", "response.rs", "request.rs"))
@@ -774,6 +912,13 @@ def main():
     rb, why_b = translate_builder(resp)
     rn, why_n = translate_new(resp, headers)
     for name, ty, term, why_ in (("responseApply", "Response → BuildOp → Response", rb, why_b), ("responseNew", "Version → StatusCode → Response", rn, why_n)):
+        summary[name] = "ok" if term else "unparsed: " + str(why_)
+        lines.append("")
+        lines.append(f"def {name} : Option ({ty}) := " + (f"some ({term})" if term else "none"))
+    cw, why_w = translate_client_write(srv)
+    ce, why_e = translate_client_enqueue(srv)
+    for name, ty, term, why_ in (("clientWriteState", "CState → WriteOut → Bool → CState", cw, why_w),
+                                 ("clientEnqueue", "CState → Nat → Bool × Option Nat", ce, why_e)):
         summary[name] = "ok" if term else "unparsed: " + str(why_)
         lines.append("")
         lines.append(f"def {name} : Option ({ty}) := " + (f"some ({term})" if term else "none"))
